@@ -28,6 +28,7 @@ import io
 import json
 import os
 import random
+import time
 import zlib
 
 from .. import tlc
@@ -566,15 +567,156 @@ def stratified(rng, cards, n):
     return out
 
 
-def run(ctx, only=None):
+class Guard:
+    """Fail fast and bounded: a pass ends as soon as MAX_KEYS distinct violation keys have been collected
+    (the remaining passes are skipped), and every pass has a wall-clock budget of FACTOR x its expected time
+    (expected = number of loads x the per-load cost measured by the early probes on this machine)."""
+
+    MAX_KEYS = 25
+    FACTOR = 4.0
+    FLOOR_S = 30.0
+
+    def __init__(self, ctx):
+        self.ctx = ctx
+        self.stopped = None
+        self.unit = {False: 0.006, True: 0.045}  # seconds per load without / with amplitude; re-measured by the probes
+        self.name, self.t0, self.budget = "", time.time(), 1e9
+        self.log = {}
+
+    def found(self):
+        return len(self.ctx.violations) + len(self.ctx.known)
+
+    def start(self, name, n_plain, n_amp):
+        expected = n_plain * self.unit[False] + n_amp * self.unit[True]
+        self.name, self.t0 = name, time.time()
+        self.budget = max(self.FACTOR * expected, self.FLOOR_S)
+        self.log[name] = {"expected_s": round(expected, 1), "budget_s": round(self.budget, 1)}
+        return self.stopped is None
+
+    def ok(self):
+        """call once per load; False = leave the pass"""
+        if self.stopped:
+            return False
+        if self.found() >= self.MAX_KEYS:
+            self.stopped = "%d distinct violation keys collected in %s; remaining loads and passes skipped" % (self.found(), self.name)
+            return False
+        el = time.time() - self.t0
+        if el > self.budget:
+            msg = "%s exceeded its wall-clock budget (%.0f s > %.0f s = %.0f x expected): loads are slowing down" % (self.name, el, self.budget, self.FACTOR)
+            if self.found():
+                self.stopped = msg + "; remaining passes skipped"
+                return False
+            raise tlc.MachineryError(msg + " and no violation was found so far")
+        return True
+
+    def end(self):
+        self.log.setdefault(self.name, {})["wall_s"] = round(time.time() - self.t0, 1)
+
+
+def renamed(c, mapping):
+    """the same card with other resonance names (a different configuration that shares the slot names)"""
+
+    def r(x):
+        if isinstance(x, str):
+            for a, b in mapping.items():
+                x = x.replace(a, b)
+            return x
+        if isinstance(x, list):
+            return [r(y) for y in x]
+        if isinstance(x, dict):
+            return {r(k): r(v) for k, v in x.items()}
+        return x
+
+    return r(c)
+
+
+def early_probes(ctx, guard, tf_cards, ids, rng):
+    """Cheap and decisive 'repeated loads in one process' probes, before the bulk passes: state that leaks from one
+    load into the next shows here within seconds.
+      * a card and its copy with renamed candidates (same slot names, other content) loaded alternately
+      * cards of different shapes that use the same slot names with other content (R_CD: [X1] / R_CD: [],
+        R_BD a list / R_BD a particle, ...) loaded alternately
+      * one and the same dict object loaded twice
+    every load is compared with what the card denotes (spec) and with the first load of the same card."""
+    by_shape = {}
+    for i, c in enumerate(tf_cards):
+        if c["kept"] and c["opt"]["kind"] == "none":
+            by_shape.setdefault(c["shape"], []).append(i)
+    picks = []
+    for sh in sorted(by_shape):
+        g = sorted(by_shape[sh], key=lambda i: (-len(tf_cards[i]["kept"]), ids[i]))
+        picks.append(g[0])
+    cards = [(ids[i], tf_cards[i]) for i in picks]
+    # renamed copies of the cards with named candidate lists
+    ren = {"Z1": "Qa", "Z2": "Qb", "Y1": "Qc", "Y2": "Qd", "X1": "Qe", "X2": "Qf", "U1": "Qg", "U2": "Qh", "V1": "Qi", "V2": "Qj"}
+    RES_ORDER.extend(x for x in ren.values() if x not in RES_ORDER)
+    extra = []
+    for cid, c in cards:
+        if slots_of(c):
+            extra.append((cid + "~renamed", renamed(c, ren)))
+    seq = []
+    for cid, c in cards:
+        seq.append((cid, c))
+    both = cards + extra
+    rounds = [both, list(reversed(both)), both[::2] + both[1::2]]
+    first = {}
+    n_loads = 0
+    times = {False: [], True: []}
+    guard.start("early probes", 0, 3 * len(both) + len(both))
+    for rnd, order in enumerate(rounds):
+        for cid, c in order:
+            if not guard.ok():
+                break
+            amp = rnd != 1  # middle round without amplitude (measures the plain load)
+            t0 = time.time()
+            cfg0 = make_config(c)
+            keep = copy.deepcopy(cfg0)
+            got = project(cfg0, amp=amp)
+            n_loads += 1
+            compare_with_spec(ctx, c, cid, got, expected(c), tag=":early%d" % rnd)
+            _ = cfg0 == keep  # the bulk passes do this comparison too: time the whole iteration
+            times[amp].append(time.time() - t0)
+            if cid in first:
+                ref = first[cid]
+                dk = [k for k in diff_keys(ref, got) if k in got or k == "error"]
+                if dk:
+                    ctx.violation("%s:early_reload:%s" % (cid, "+".join(dk)), {"first_load": describe(ref, dk), "load_after_other_cards": describe(got, dk)})
+            elif amp:
+                first[cid] = got
+                ctx.count(1, distinct_key=cid + ":early", nontrivial=True)
+                if len(first) == 1:
+                    ctx.sample({"card": cid, "probe": "early alternating loads", "config": make_config(c), "kept_chains": fmt_chains(expected(c)["chains"]),
+                                "implementation_chain_set_equal": got.get("chains") == expected(c)["chains"]})
+    for cid, c in both[:: max(1, len(both) // 6)]:
+        if not guard.ok():
+            break
+        cfg = make_config(c)
+        a = project(cfg, amp=True)
+        b = project(cfg, amp=True)
+        n_loads += 2
+        dk = diff_keys(a, b)
+        if dk:
+            ctx.violation("%s:early_twice:%s" % (cid, "+".join(dk)), {"first": describe(a, dk), "second": describe(b, dk)})
+    guard.end()
+    for amp in (False, True):
+        if len(times[amp]) >= 5:
+            ts = sorted(times[amp])
+            guard.unit[amp] = max(ts[len(ts) // 2], 0.003 if not amp else 0.02)
+    ctx.part("early_probes", cards=len(both), renamed_copies=len(extra), loads=n_loads, violations=guard.found(),
+             per_load_ms_plain=round(1000 * guard.unit[False], 2), per_load_ms_amplitude=round(1000 * guard.unit[True], 2))
+    guard.probe_cards = len(first)
+    ctx.log("early probes: %d loads on %d cards, %d violation keys; %.1f / %.1f ms per load" % (n_loads, len(both), guard.found(), 1000 * guard.unit[False], 1000 * guard.unit[True]))
+
+
+def run(ctx, only=None, probes=None):
     tf_cards, ids = run_tlc(ctx)
     t = TIERS[ctx.tier]
     check_vacuity(ctx, tf_cards)
-    ctx.cov["exhaustive"] = True
-    bind(ctx, tf_cards, ids, t, only)
+    bind(ctx, tf_cards, ids, t, only, probes)
 
 
-def bind(ctx, tf_cards, ids, t, only=None):
+def bind(ctx, tf_cards, ids, t, only=None, probes=None):
+    """only: set of card ids (replay of one card); probes: True/False forces the early probes on/off"""
     with quiet():
         import tf_pwa.config_loader  # noqa: F401  (import cost outside the timed loops)
     rng = random.Random(ctx.seed)
@@ -589,13 +731,21 @@ def bind(ctx, tf_cards, ids, t, only=None):
         amp_idx = set(amp_list)
         var_idx = set(amp_list[: t["n_var"]])
     exps = {i: expected(tf_cards[i]) for i in all_idx}
+    guard = Guard(ctx)
+
+    # ---- early probes: repeated / alternating loads of a few cards ----------
+    if (only is None) if probes is None else probes:
+        early_probes(ctx, guard, tf_cards, ids, random.Random(ctx.seed + 1))
 
     # ---- pass 1: every card, shuffled order -------------------------------
     order1 = list(all_idx)
     rng.shuffle(order1)
     first = {}
     n_equal = 0
+    guard.start("pass 1", len(order1), len(amp_idx))
     for i in order1:
+        if not guard.ok():
+            break
         c, cid = tf_cards[i], ids[i]
         cfg = make_config(c)
         before = copy.deepcopy(cfg)
@@ -606,13 +756,19 @@ def bind(ctx, tf_cards, ids, t, only=None):
         first[i] = got
         ctx.count(1, distinct_key=cid, nontrivial=bool(c["kept"]))
         n_equal += compare_with_spec(ctx, c, cid, got, exps[i])
-    ctx.part("pass1_against_spec", cards=len(order1), with_amplitude=len(amp_idx & set(order1)), equal=n_equal)
-    ctx.log("pass 1: %d cards against the spec, %d equal" % (len(order1), n_equal))
+    guard.end()
+    ctx.part("pass1_against_spec", cards=len(first), of=len(order1), with_amplitude=len(amp_idx & set(first)), equal=n_equal)
+    ctx.log("pass 1: %d of %d cards against the spec, %d equal" % (len(first), len(order1), n_equal))
 
     # ---- variants + export on a subset ------------------------------------
     n_var = n_var_equal = n_exp = 0
     vkinds = {}
+    var_done = 0
+    guard.start("variants", 4 * len(var_idx), 14 * len(var_idx))
     for serial, i in enumerate(sorted(var_idx)):
+        if i not in first or not guard.ok():
+            break
+        var_done += 1
         c, cid = tf_cards[i], ids[i]
         base = first[i]
         vrng = random.Random("%d:%s" % (ctx.seed, cid))
@@ -656,15 +812,23 @@ def bind(ctx, tf_cards, ids, t, only=None):
                     dk.append("count")
                 if dk:
                     ctx.violation("%s:export:%s:%s" % (cid, when, "+".join(dk)), {"reloaded": describe(back, dk), "original": describe(base, dk)})
-    ctx.part("variants", cards=len(var_idx), loads=n_var, equal=n_var_equal, kinds=vkinds, export_reloads=n_exp)
-    ctx.log("variants: %d loads on %d cards, %d equal; %d export round trips" % (n_var, len(var_idx), n_var_equal, n_exp))
+    guard.end()
+    ctx.part("variants", cards=var_done, of=len(var_idx), loads=n_var, equal=n_var_equal, kinds=vkinds, export_reloads=n_exp)
+    ctx.log("variants: %d loads on %d cards, %d equal; %d export round trips" % (n_var, var_done, n_var_equal, n_exp))
 
     # ---- pass 2: every card again, other order (everything else in between) ----
     order2 = list(all_idx)
     rng.shuffle(order2)
     n_same = 0
     amp2_idx = amp_idx if ctx.tier == "thorough" or only is not None else set(sorted(amp_idx)[::2])  # quick: every other one
+    n_twice_plan = max(50, len(order2) // 20)
+    n_inter_plan = max(40, len(amp_idx) // 5)
+    guard.start("pass 2", len(order2) + 2 * n_twice_plan, len(amp2_idx) + n_inter_plan + len(amp_idx) // 10)
+    n_reloaded = 0
     for i in order2:
+        if i not in first or not guard.ok():
+            break
+        n_reloaded += 1
         c, cid = tf_cards[i], ids[i]
         got = project(make_config(c), amp=(i in amp2_idx))
         if i in amp_idx and i not in amp2_idx:
@@ -678,7 +842,9 @@ def bind(ctx, tf_cards, ids, t, only=None):
                 ctx.part("model_drift", chain_order_changed_on_reload=1)
     # immediate repetition of one and the same dict object
     n_twice = 0
-    for i in order2[: max(50, len(order2) // 20)]:
+    for i in order2[:n_twice_plan]:
+        if i not in first or not guard.ok():
+            break
         c, cid = tf_cards[i], ids[i]
         cfg = make_config(c)
         a = project(cfg, amp=(i in amp_idx))
@@ -689,8 +855,10 @@ def bind(ctx, tf_cards, ids, t, only=None):
             ctx.violation("%s:twice:%s" % (cid, "+".join(dk)), {"first": describe(a, dk), "second": describe(b, dk)})
     # interleaved construction: several loaders are built first, their amplitudes afterwards in the opposite order
     n_inter = 0
-    inter = [i for i in order2 if i in amp_idx and "error" not in first[i] and "amp_error" not in first[i]][: max(40, len(amp_idx) // 5)]
+    inter = [i for i in order2 if i in amp_idx and i in first and "names" in first[i]][:n_inter_plan]
     for k in range(0, len(inter), 8):
+        if not guard.ok():
+            break
         batch = inter[k : k + 8]
         loaders = []
         with quiet():
@@ -715,14 +883,21 @@ def bind(ctx, tf_cards, ids, t, only=None):
                 dk = [kk for kk in got if got[kk] != first[i].get(kk)]
                 if dk:
                     ctx.violation("%s:interleaved:%s" % (ids[i], "+".join(dk)), {"first_load": describe(first[i], dk), "interleaved": describe(got, dk)})
-    ctx.part("pass2_reload", cards=len(order2), identical=n_same, same_dict_twice=n_twice, interleaved_amplitudes=n_inter)
-    density_observation(ctx)
-    binding_demo(ctx, tf_cards, ids, [i for i in order1 if "names" in first[i]])
-    ctx.log("pass 2: %d cards reloaded, %d identical" % (len(order2), n_same))
+    guard.end()
+    ctx.part("pass2_reload", cards=n_reloaded, of=len(order2), identical=n_same, same_dict_twice=n_twice, interleaved_amplitudes=n_inter)
+    ctx.log("pass 2: %d of %d cards reloaded, %d identical" % (n_reloaded, len(order2), n_same))
+    if guard.stopped is None and only is None:
+        density_observation(ctx)
+        binding_demo(ctx, tf_cards, ids, [i for i in order1 if "names" in first.get(i, {})])
+    ctx.part("guard", passes=guard.log, max_keys=Guard.MAX_KEYS, factor=Guard.FACTOR, stopped=guard.stopped or "")
+    if guard.stopped:
+        ctx.notes.append("stopped early: " + guard.stopped)
+        ctx.log("stopped early:", guard.stopped)
+    ctx.cov["exhaustive"] = guard.stopped is None and only is None and len(first) == len(tf_cards)
 
     # ---- evidence -----------------------------------------------------------
-    ctx.cov["traces_validated_against_impl"] = len(order1)
-    pool = sorted(amp_idx) if only is None else all_idx
+    ctx.cov["traces_validated_against_impl"] = len(first) + getattr(guard, "probe_cards", 0)
+    pool = [i for i in (sorted(amp_idx) if only is None else all_idx) if i in first] or list(first)
     preds = [
         lambda c: c["shape"] == "s3_sh" and c["trees"] > len(c["chains"]) and 0 < len(c["kept"]) < len(c["chains"]),
         lambda c: c["shape"] == "s4_m" and 0 < len(c["kept"]) < len(c["chains"]),
@@ -833,4 +1008,7 @@ def replay(ctx, path):
     with open(path) as f:
         j = json.load(f)
     cid = j["key"].split(":")[0]
-    run(ctx, only={cid})
+    if ":early" in j["key"]:
+        run(ctx, only=set(), probes=True)  # the early alternating-load probes (deterministic), no bulk pass
+    else:
+        run(ctx, only={cid})
